@@ -799,6 +799,10 @@ func (m *Master) statusLocked(t *LaunchedTask, state, reason, msg string) {
 			status.Reason = &r
 			status.Source = mesos.SOURCE_MASTER.Enum()
 			status.UUID = nil // reconciliation updates carry no uuid
+			if reason == "REASON_RECONCILIATION" {
+				// master-generated: the master knows the agent, not the executor
+				status.ExecutorID = nil
+			}
 		}
 	}
 	delivered := m.send(&scheduler.Event{Type: scheduler.Event_UPDATE, Update: &scheduler.Event_Update{Status: status}})
